@@ -132,7 +132,7 @@ CLAIMED["C10"]["text"] += (" W2: every state-changing action that can make a del
         "and does so through a commit hook that fires only after a successful commit (hook obligations).")
 CLAIMED["C07"]["text"] += " deliverToSubscription is proved to use exactly that evaluator on the stored filter and the message's attributes."
 REASONS = {
- "C11": "no contract within reach decides it: the property is about the interleaving of the streaming-pull goroutines (flow-control window accounting across concurrent Send/ack handlers); the verifier built here is sequential (one function, one thread), and the accounting lives in closures communicating over channels. Not claimed rather than switching technique.",
+ "C11": "no contract within reach decides it: the flow-control accounting lives in four closures of MessageStreamer.Go that share fc and the pending map under a mutex and run concurrently; the verifier built here is sequential (one function, one thread). A per-closure contract would need a ghost sum over a map plus a rely/guarantee argument for what the other goroutines do between the unlock and the fetch; that lock-invariant support was not built. Not claimed rather than switching technique or claiming on weaker grounds.",
 }
 
 def reason(pid):
